@@ -4,6 +4,7 @@ C13 — the oracle rejects what it should reject: negative examples for every cl
 -/
 import NV.C13.Spec
 import NV.C13.SpecStall
+import NV.C13.SpecMode
 
 namespace NV.C13
 
@@ -58,5 +59,15 @@ example : judgeStall 10 true [.ask 682, .rx [1, 2, 3], .st 0 3 0 0 0] ≠ [] := 
 example : judgeStall 3 true [.ask 682, .rx [1, 2, 3], .st 0 3 0 0 0] = [] := by decide
 example : judgeStall 10 false [.ask 682, .rx [1, 2, 3]] = [] := by decide
 example : judgeStall 10 true [.ask 682, .rx [1, 2, 3], .closed] = [] := by decide
+
+/-! get_char mode-end clause: "y" NUL "a" CR LF "b" CR LF typed ahead in one read, `serve` hands out "y", then the two
+    lines must come - losing the second one is flagged, delivering both is accepted -/
+def modeTrace (tail : List Ev) : List Ev :=
+  [.st 0 0 0 0 0, .setcall true, .st 0 0 0 0 4, .ask 682, .rx [121, 0, 97, 13, 10, 98, 13, 10], .st 0 8 0 0 132,
+   .cmd [121], .st 0 8 0 0 128] ++ tail
+example : judgeMode true (modeTrace [.cmd [97], .st 4 8 0 0 128, .cmd [98], .st 0 0 0 0 0, .nocmd]) = [] := by decide
+example : judgeMode true (modeTrace [.cmd [97], .st 4 8 0 0 0, .nocmd]) ≠ [] := by decide
+example : judgeMode true (modeTrace [.cmd [98]]) ≠ [] := by decide
+example : judgeMode false (modeTrace [.cmd [98]]) = [] := by decide
 
 end NV.C13
